@@ -105,3 +105,12 @@ func init() {
 		Assumptions: []string{trustDeps},
 	}
 }
+
+func init() {
+	Properties["C10"] = PropSpec{
+		Rules:       []Rule{MapOrder("(*SpecValidator).Validate"), RuleSeq, RunState, ResultAlgebra},
+		Explanation: "MAP-ORDER: in every function reachable from (*SpecValidator).Validate, a range over a map is left before exhaustion only by pure search loops, and a list filled in map order is sorted before it is rendered into a message (taint propagated through appends, callees' return values and ranges over tainted lists); RULE-SEQ: early returns only under !Options.ContinueOnErrors && errs.HasErrors(), the final return after all rules (so the stop-early run executes a prefix of the same rule sequence: its errors are a subset), warnings bookkeeping deferred before the first rule, options copied per validator and the process-wide default never consulted during validation; RUN-STATE: per-run fields of a reused validator are re-initialised; RESULT-ALGEBRA: messages form a text-keyed set (order-insensitive accumulation).",
+		NotDecided:  "Determinism of the dependencies (analysis, loader); serialisation variants of one document; which member of a cycle a circular-ancestry message names.",
+		Assumptions: []string{trustDeps},
+	}
+}
